@@ -337,6 +337,7 @@ fn emit_exec(w: &mut CaseWriter, c: &ExecCase, root: &PathBuf, seq: &mut u64, st
     if spilled { w.count("spill:files_appeared", 1); } else if c.spill.is_some() { w.count("spill:stayed_in_memory", 1); }
     if spec.is_none() { w.count("spec:undefined", 1); }
     if exec_mixed_equal(c) { w.count("regime:equal_keys_of_different_representation", 1); }
+    w.count(if c.algo != Algo::NestedLoop && exec_mixed_equal(c) { "class:1" } else { "class:0(none)" }, 1);
 }
 
 // ================================================================== sql cases
@@ -574,6 +575,9 @@ fn emit_sql(w: &mut CaseWriter, sut: &mut Sut, q: &Query, stream: &str) {
     w.count(if q.whr.is_some() { "where:yes" } else { "where:no" }, 1);
     w.count(if q.sel.is_some() { "select:column_list" } else { "select:star" }, 1);
     if spec.is_none() { w.count("spec:undefined", 1); }
+    let k = rough_class_sql(q);
+    w.count(&if k == 0 { "class:0(none)".to_string() } else { format!("class:{}", k) }, 1);
+    w.count(if q.qual { "names:table_qualified" } else { "names:bare" }, 1);
     if let (Some(s), Out::Rows(r)) = (&spec, &outs[0]) { w.count(if bag_eq(s, r) { "oracle:equal_to_reference" } else { "oracle:differs_from_reference" }, 1); }
 }
 
@@ -647,8 +651,27 @@ fn structured_exec() -> Vec<ExecCase> {
         v.push(ExecCase { algo: Algo::NestedLoop, jt, n: 1, spill: None, lk: vec![1], rk: vec![0], lw: 2, rw: 2, l: l.clone(), r: r.clone(), swapped: false });
         for sw in [false, true] { if sw && jt != Jt::Inner { continue; } v.push(ExecCase { algo: Algo::Streaming, jt, n: 1, spill: None, lk: vec![1], rk: vec![0], lw: 2, rw: 2, l: l.clone(), r: r.clone(), swapped: sw }); }
     }
+    for (algo, spill) in [(Algo::GraceDyn, None), (Algo::GraceDyn, Some(1024usize)), (Algo::GraceStatic, None)] {
+        // num_partitions = 0: remainder by zero / empty partition vector
+        v.push(ExecCase { algo, jt: Jt::Inner, n: 0, spill, lk: vec![1], rk: vec![0], lw: 2, rw: 2, l: l.clone(), r: r.clone(), swapped: false });
+    }
     for n in [1usize, 4, 16] { v.push(ExecCase { algo: Algo::GraceStatic, jt: Jt::Inner, n, spill: None, lk: vec![1], rk: vec![0], lw: 2, rw: 2, l: l.clone(), r: r.clone(), swapped: false }); }
     v
+}
+
+/// larger inputs with few distinct keys under the budgets of the property: forces real spill files
+fn gen_bulk_exec(rng: &mut Rng) -> ExecCase {
+    let nl = 20 + rng.below(40) as usize;
+    let nr = 20 + rng.below(40) as usize;
+    let dom = 12 + rng.below(30) as i64;
+    let text_key = rng.chance(1, 4);
+    let key = |rng: &mut Rng| -> Val {
+        if rng.chance(1, 10) { Val::Null } else { let k = rng.range(0, dom); if text_key { Val::text(&format!("key-{:03}", k)) } else { Val::Int(k) } }
+    };
+    let l: Rows = (0..nl).map(|i| vec![Val::Int(i as i64), key(rng), Val::text(&"x".repeat(rng.below(40) as usize))]).collect();
+    let r: Rows = (0..nr).map(|i| vec![key(rng), Val::Int(1000 + i as i64)]).collect();
+    ExecCase { algo: Algo::GraceDyn, jt: *rng.pick(&[Jt::Inner, Jt::Left, Jt::Right, Jt::Full]), n: *rng.pick(&[4usize, 16, 16]),
+               spill: Some(*rng.pick(&BUDGETS)), lk: vec![1], rk: vec![0], lw: 3, rw: 2, l, r, swapped: false }
 }
 
 #[derive(Clone, Copy, PartialEq, Debug)]
@@ -705,16 +728,24 @@ fn gen_simple_pred(rng: &mut Rng, tabs: &[Table], upto: usize, only_table: Optio
 /// an equality between a column of the new table `k` and a column of the same type of an earlier table
 fn gen_key_eq(rng: &mut Rng, tabs: &[Table], k: usize, allow_mixed: bool) -> Option<Expr> {
     let ty = *rng.pick(&[ColTy::Int, ColTy::Int, ColTy::Int, ColTy::Float, ColTy::Text]);
-    let right = cols_of_type(tabs, k, ty, Some(k));
-    let lty = if allow_mixed && ty != ColTy::Text && rng.chance(1, 3) { if ty == ColTy::Int { ColTy::Float } else { ColTy::Int } } else { ty };
-    let left: Vec<usize> = (0..k).flat_map(|t| cols_of_type(tabs, k, lty, Some(t))).collect();
+    let all_cols = |t: usize, ty: ColTy| -> Vec<usize> {
+        let off: usize = tabs[..t].iter().map(|x| x.cols.len()).sum();
+        (0..tabs[t].cols.len()).filter(|j| tabs[t].cols[*j] == ty).map(|j| off + j).collect()
+    };
+    let mut right = all_cols(k, ty);
+    let lty = if allow_mixed && ty != ColTy::Text && rng.chance(1, 4) { if ty == ColTy::Int { ColTy::Float } else { ColTy::Int } } else { ty };
+    let mut left: Vec<usize> = (0..k).flat_map(|t| all_cols(t, lty)).collect();
+    if left.is_empty() || right.is_empty() { right = all_cols(k, ColTy::Int); left = (0..k).flat_map(|t| all_cols(t, ColTy::Int)).collect(); }
+    // prefer the non-identity columns (duplicate and NULL keys)
+    if left.len() > 1 && rng.chance(3, 4) { let o: Vec<usize> = left.iter().copied().filter(|c| !(0..k).any(|t| *c == tabs[..t].iter().map(|x| x.cols.len()).sum::<usize>())).collect(); if !o.is_empty() { left = o; } }
+    if right.len() > 1 && rng.chance(3, 4) { let off: usize = tabs[..k].iter().map(|x| x.cols.len()).sum(); right.retain(|c| *c != off); }
     if left.is_empty() || right.is_empty() { return None; }
     let (a, b) = (Expr::Col(*rng.pick(&left)), Expr::Col(*rng.pick(&right)));
     Some(if rng.chance(1, 3) { Expr::cmp(CmpOp::Eq, b, a) } else { Expr::cmp(CmpOp::Eq, a, b) })
 }
 
 fn gen_on(rng: &mut Rng, tabs: &[Table], k: usize, p: Profile) -> Expr {
-    let key = gen_key_eq(rng, tabs, k, p == Profile::Any);
+    let key = gen_key_eq(rng, tabs, k, true);
     let nonequi = |rng: &mut Rng| {
         // a comparison between a column of the new table and an earlier one
         let ty = *rng.pick(&[ColTy::Int, ColTy::Int, ColTy::Float]);
@@ -737,7 +768,13 @@ fn gen_on(rng: &mut Rng, tabs: &[Table], k: usize, p: Profile) -> Expr {
             let b = if rng.chance(1, 2) { nonequi(rng) } else { gen_simple_pred(rng, tabs, k, None) };
             if rng.chance(1, 2) { Expr::and(a, b) } else { Expr::and(b, a) }
         }
-        (Profile::Any, 70..=79) => {
+        (Profile::Any, 70..=72) => {
+            // an equality between two columns of the same side (the planner takes it for a join key)
+            let ci = cols_of_type(tabs, k, ColTy::Int, Some(if rng.chance(1, 2) { k } else { 0 }));
+            let same = if ci.len() >= 2 { Expr::cmp(CmpOp::Eq, Expr::Col(ci[0]), Expr::Col(ci[1])) } else { nonequi(rng) };
+            if rng.chance(1, 2) { same } else { Expr::and(key.unwrap_or_else(|| nonequi(rng)), same) }
+        }
+        (Profile::Any, 73..=79) => {
             // two keys
             let a = key.unwrap_or_else(|| nonequi(rng));
             let b = gen_key_eq(rng, tabs, k, false).unwrap_or_else(|| nonequi(rng));
@@ -799,7 +836,8 @@ fn gen_query(rng: &mut Rng, p: Profile, tabs: &[Table]) -> Query {
             Some(s)
         }
     };
-    Query { tabs, joins, whr, sel, qual: rng.chance(1, 2) }
+    let qual = rng.chance(1, 2) && !(p == Profile::Clean && whr.is_some());
+    Query { tabs, joins, whr, sel, qual }
 }
 
 /// the structured SQL stream: one fixed pair of tables with duplicate and NULL keys under every join type and
@@ -856,6 +894,7 @@ fn gen(a: &Args) {
     for c in structured_exec() { emit_exec(&mut w, &c, &root, &mut seq, "structured"); }
     let n_exec = if a.thorough() { 12_000 } else { 900 };
     for _ in 0..n_exec { let c = gen_exec_case(&mut rng, a.thorough()); emit_exec(&mut w, &c, &root, &mut seq, "random"); }
+    for _ in 0..(if a.thorough() { 160 } else { 10 }) { let c = gen_bulk_exec(&mut rng); emit_exec(&mut w, &c, &root, &mut seq, "bulk"); }
     for q in structured_sql() { emit_sql(&mut w, &mut sut, &q, "structured"); }
     // four of five table sets are queried only outside every recorded finding class (profile `clean`)
     let (n_sets, per_set) = if a.thorough() { (600, 10) } else { (60, 7) };
@@ -912,7 +951,7 @@ fn rough_class_sql(q: &Query) -> u32 {
         if let Some(e) = &on { let mut found = false; e.walk(&mut |x| if let Expr::Cmp(CmpOp::Eq, a, b) = x { if matches!((&**a, &**b), (Expr::Col(_), Expr::Col(_))) { found = true; } }); if found && sh == "non_equi" { /* inside OR etc.: not a top-level key */ } }
         lw += q.tabs[k + 1].cols.len();
     }
-    if q.joins[..q.joins.len() - 1].iter().any(|(j, _)| outer(j)) { return 7; }
+    if q.joins[..q.joins.len() - 1].iter().any(|(j, _)| outer(j)) || q.joins[q.joins.len() - 1].0.right_outer() { return 7; }
     0
 }
 
